@@ -64,7 +64,9 @@ type MarkdownWriter struct {
 	output    strings.Builder
 	imageNum  int
 	footnotes []string
-	inList    bool // 上一个输出的块是列表项
+	inList    bool     // 上一个输出的块是列表项
+	codeLines []string // 尚未输出的连续CodeBlock段落的文本（合并为一个围栏代码块）
+	codeGaps  int      // 最后一个CodeBlock段落之后遇到的没有可见文本的段落数
 }
 
 // Write 生成Markdown内容
@@ -94,6 +96,8 @@ func (w *MarkdownWriter) Write() ([]byte, error) {
 			}
 		}
 	}
+
+	w.flushCodeBlock()
 
 	// 添加脚注
 	if w.opts.PreserveFootnotes && len(w.footnotes) > 0 {
@@ -126,6 +130,16 @@ func (w *MarkdownWriter) writeParagraph(para *document.Paragraph) error {
 
 	// 检查段落样式
 	style := w.getParagraphStyle(para)
+
+	// 代码块之后第一个有可见文本的其他段落结束这个代码块；
+	// 代码行之间没有可见文本的段落（它本身不产生任何输出）算作代码中的空行
+	if style != "CodeBlock" && len(w.codeLines) > 0 {
+		if strings.TrimSpace(w.extractParagraphText(para)) == "" {
+			w.codeGaps++
+			return nil
+		}
+		w.flushCodeBlock()
+	}
 
 	switch {
 	case strings.HasPrefix(style, "Heading"):
@@ -187,17 +201,32 @@ func (w *MarkdownWriter) writeQuote(para *document.Paragraph) error {
 	return nil
 }
 
-// writeCodeBlock 写入代码块
+// writeCodeBlock 写入代码块。Word中代码的每一行是一个CodeBlock段落（从Markdown导入时也是这样生成的），
+// 因此连续的CodeBlock段落属于同一个代码块：这里只收集文本，由flushCodeBlock写成一个围栏代码块
 func (w *MarkdownWriter) writeCodeBlock(para *document.Paragraph) error {
-	w.closeList()
 	// 围栏代码块中的内容按字面解释：不加强调标记，也不转义
 	var raw strings.Builder
 	for i := range para.Runs {
 		raw.WriteString(para.Runs[i].Text.Content)
 	}
-	text := raw.String()
+	for ; w.codeGaps > 0; w.codeGaps-- {
+		w.codeLines = append(w.codeLines, "")
+	}
+	w.codeLines = append(w.codeLines, raw.String())
+
+	return nil
+}
+
+// flushCodeBlock 把收集到的连续CodeBlock段落写成一个围栏代码块，每个段落一行（段落文本中已有的换行保持不变）
+func (w *MarkdownWriter) flushCodeBlock() {
+	if len(w.codeLines) == 0 {
+		return
+	}
+	text := strings.Join(w.codeLines, "\n")
+	w.codeLines, w.codeGaps = nil, 0
+	w.closeList()
 	if strings.TrimSpace(text) == "" {
-		return nil
+		return
 	}
 
 	// 围栏要比代码中最长的反引号串更长
@@ -206,11 +235,14 @@ func (w *MarkdownWriter) writeCodeBlock(para *document.Paragraph) error {
 		fence += "`"
 	}
 	lang := w.opts.DefaultCodeLang
+	// 换行符前的回车符属于行结束符（CRLF），不是代码文本：统一写成LF，重新导入时也是这样读取的
+	body := text + "\n"
+	for strings.Contains(body, "\r\n") {
+		body = strings.ReplaceAll(body, "\r\n", "\n")
+	}
 	w.output.WriteString(fence + lang + "\n")
-	w.output.WriteString(text + "\n")
+	w.output.WriteString(body)
 	w.output.WriteString(fence + "\n\n")
-
-	return nil
 }
 
 // writeListItem 写入列表项
@@ -257,6 +289,7 @@ func (w *MarkdownWriter) writeTable(table *document.Table) error {
 	if table == nil || len(table.Rows) == 0 {
 		return nil
 	}
+	w.flushCodeBlock()
 	w.closeList()
 
 	if !w.opts.UseGFMTables {
